@@ -1048,3 +1048,339 @@ def gen_case(rng, method, strip, impl):
         tmpl.append({'t': 'def', 'name': 'f0', 'param': param, 'kids': body})
     tmpl += g.nodes({}, 0, rng.randrange(1, 5))
     return {'mode': 'template', 'tmpl': tmpl, 'data': g.data, 'method': method, 'strip': strip, 'impl': impl}
+
+
+# --------------------------------------------------------------------------
+# is a (possibly shrunk or hand-written) case inside the grammar?  The oracle only judges such cases.
+
+import re as _re
+_VAR = _re.compile(r'^[A-Za-z][0-9]+$')
+
+
+class OutsideGrammar(Exception):
+    pass
+
+
+def _req(cond, what):
+    if not cond:
+        raise OutsideGrammar(what)
+
+
+def _valid_scalar(v):
+    _req(isinstance(v, dict) and 'k' in v, 'value')
+    k = v['k']
+    if k == 's':
+        _req(isinstance(v.get('s'), str), 's')
+    elif k == 'm':
+        _req(any(v.get('s') == m['s'] and v.get('toks') == m['toks'] for m in SAFE_MARKUP), 'm')
+    elif k == 'i':
+        _req(isinstance(v.get('n'), int) and not isinstance(v.get('n'), bool), 'i')
+    elif k == 'f':
+        _req(isinstance(v.get('x'), str), 'f')
+        float(v['x'])
+    elif k == 'b':
+        _req(isinstance(v.get('v'), bool), 'b')
+    elif k == 'n':
+        pass
+    elif k == 'o':
+        _req(isinstance(v.get('str'), str), 'o')
+        h = v.get('html')
+        _req(h is None or any(h.get('s') == m['s'] and h.get('toks') == m['toks'] for m in SAFE_MARKUP), 'o.html')
+    elif k in ('isub', 'fsub'):
+        _req(isinstance(v.get('str'), str), k)
+        if k == 'isub':
+            _req(isinstance(v.get('n'), int), 'isub.n')
+    else:
+        raise OutsideGrammar('scalar kind %r' % (k,))
+
+
+def validate(case):
+    """raises OutsideGrammar (or any other exception) when the case is not one the generator could have produced"""
+    _req(isinstance(case, dict), 'case')
+    _req(case.get('method') in ('xml', 'xhtml', 'html'), 'method')
+    _req(isinstance(case.get('strip'), bool), 'strip')
+    _req(case.get('impl') in ('c', 'py'), 'impl')
+    _req(case.get('mode') in ('template', 'builder'), 'mode')
+    data = case.get('data')
+    _req(isinstance(data, dict), 'data')
+    for name, v in data.items():
+        _req(_VAR.match(name) is not None, 'data name')
+        k = v.get('k')
+        if k in ('l', 'g'):
+            _req(isinstance(v.get('items'), list), 'items')
+            for x in v['items']:
+                _valid_scalar(x)
+        elif k == 'pairs':
+            _req(isinstance(v.get('dict'), bool), 'pairs.dict')
+            for n, src in v['items']:
+                _req(n in ATTRS and src in data and data[src]['k'] not in ('l', 'g', 'pairs', 'fmtstr'), 'pairs item')
+            _req(len(set(n for n, _ in v['items'])) == len(v['items']), 'pairs names')
+        elif k == 'fmtstr':
+            _req(isinstance(v.get('s'), str), 'fmtstr')
+        else:
+            _valid_scalar(v)
+    defs = {}
+
+    def scalar_name(n, bound):
+        _req(isinstance(n, str), 'name')
+        if n in bound:
+            return
+        _req(n in data and data[n]['k'] not in ('l', 'g', 'pairs', 'fmtstr'), 'scalar var %r' % (n,))
+
+    def opnd_name(n, bound):
+        scalar_name(n, bound)
+        if n not in bound:
+            v = data[n]
+            _req(v['k'] in ('s', 'm') or (v['k'] == 'o' and v.get('html')), 'operand kind')
+        else:
+            raise OutsideGrammar('operand from a bound variable')
+
+    def vexpr(e, bound, allow_list=True):
+        k = e['k']
+        if k == 'var':
+            _req(e['n'] in bound or (e['n'] in data and data[e['n']]['k'] not in ('pairs', 'fmtstr')), 'var')
+        elif k in ('list', 'gen'):
+            for n in e['items']:
+                scalar_name(n, bound)
+        else:
+            raise OutsideGrammar('vexpr ' + str(k))
+
+    def pieces_ok(ps, nargs):
+        holes = []
+        for p in ps:
+            if p[0] == 'S':
+                _req(p[1] in ELEMS, 'piece elem')
+                for an, av in p[2]:
+                    _req(an in ATTRS, 'piece attr')
+                    if av[0] == 'hole':
+                        holes.append(av[1])
+                    else:
+                        _req(av[0] == 'lit' and isinstance(av[1], str), 'piece attr lit')
+            elif p[0] == 'E':
+                _req(p[1] in ELEMS, 'piece elem')
+            elif p[0] == 'T':
+                _req(isinstance(p[1], str), 'piece text')
+            elif p[0] == 'H':
+                holes.append(p[1])
+            else:
+                raise OutsideGrammar('piece')
+        _req(holes == list(range(nargs)), 'holes')
+        # tags of the author's markup are balanced
+        st = []
+        for p in ps:
+            if p[0] == 'S':
+                st.append(p[1])
+            elif p[0] == 'E':
+                _req(st and st.pop() == p[1], 'piece nesting')
+        _req(not st, 'piece nesting')
+
+    def bnode(b, bound):
+        _req(b['name'] in ELEMS and isinstance(b.get('call'), bool), 'bnode')
+        _req(len(set(kw for kw, _ in b['attrs'])) == len(b['attrs']), 'kw twice')
+        for kw, n in b['attrs']:
+            _req(kw in KWATTRS, 'kw')
+            scalar_name(n, bound)
+        for kid in b['kids']:
+            bkid(kid, bound)
+
+    def bkid(kid, bound):
+        if 'el' in kid:
+            bnode(kid['el'], bound)
+        elif 'lst' in kid:
+            for n in kid['lst']:
+                scalar_name(n, bound)
+        else:
+            vexpr({'k': 'var', 'n': kid['v']}, bound)
+
+    def text_expr(e, bound):
+        k = e['k']
+        if k in ('var', 'list', 'gen'):
+            vexpr(e, bound)
+        elif k == 'call':
+            _req(e['f'] in defs, 'call of unknown macro')
+            scalar_name(e['arg'], bound)
+        elif k == 'fmt':
+            _req(data[e['m']]['k'] == 'fmtstr' and data[e['m']]['s'] == fmt_string(e['pieces']), 'fmt string')
+            pieces_ok(e['pieces'], len(e['args']))
+            _req(isinstance(e['tuple'], bool) and (e['tuple'] or len(e['args']) == 1), 'fmt tuple')
+            for n in e['args']:
+                opnd_name(n, bound)
+        elif k == 'fmtmap':
+            keys = [kk for kk, _ in e['keys']]
+            _req(all(_re.match(r'^[a-z][0-9]+$', kk) for kk in keys) and len(set(keys)) == len(keys), 'keys')
+            _req(data[e['m']]['k'] == 'fmtstr' and data[e['m']]['s'] == fmt_string(e['pieces'], keys), 'fmt string')
+            pieces_ok(e['pieces'], len(keys))
+            for _, n in e['keys']:
+                opnd_name(n, bound)
+        elif k in ('add', 'radd'):
+            _req(data[e['m']]['k'] == 'm', 'markup var')
+            opnd_name(e['arg'], bound)
+        elif k == 'join':
+            _req(data[e['m']]['k'] == 'm', 'markup var')
+            for n in e['items']:
+                opnd_name(n, bound)
+        elif k == 'esc':
+            _req(isinstance(e['q'], bool), 'esc')
+            opnd_name(e['arg'], bound)
+        elif k == 'tag':
+            bnode(e['el'], bound)
+        elif k == 'frag':
+            for kid in e['kids']:
+                bkid(kid, bound)
+        else:
+            raise OutsideGrammar('expr ' + str(k))
+
+    def loop_expr(e, bound):
+        if e['k'] == 'var':
+            _req(e['n'] not in bound and e['n'] in data and data[e['n']]['k'] in ('l', 'g'), 'loop var')
+        else:
+            vexpr(e, bound)
+            _req(e['k'] in ('list', 'gen'), 'loop expr')
+
+    def nodes(ns, bound, top=False):
+        prev_lit = False
+        for n in ns:
+            t = n['t']
+            _req(not (t == 'lit' and prev_lit), 'adjacent literals')
+            prev_lit = t == 'lit'
+            if t == 'lit':
+                _req(isinstance(n['s'], str) and n['s'] != '' and '$' not in n['s'] and '\r' not in n['s']
+                     and xml_char_only(n['s']) == n['s'], 'literal')
+            elif t == 'site':
+                _req(n['form'] in ('brace', 'dollar', 'replace-attr', 'replace-el'), 'site form')
+                text_expr(n['e'], bound)
+            elif t == 'el':
+                _req(n['name'] in ELEMS or (n['name'] in VOID and not n['kids'] and n.get('content') is None), 'element')
+                b2 = bound
+                if 'for' in n:
+                    _req(_VAR.match(n['for']['var']) is not None and n['for']['var'] not in data, 'loop variable')
+                    loop_expr(n['for']['e'], bound)
+                    b2 = [n['for']['var']] + bound
+                _req(len(set(a['name'] for a in n['attrs'])) == len(n['attrs']), 'attribute twice')
+                for a in n['attrs']:
+                    _req(a['name'] in ATTRS and a['parts'], 'attr')
+                    for p in a['parts']:
+                        if 'lit' in p:
+                            _req(isinstance(p['lit'], str) and '$' not in p['lit'] and xml_char_only(p['lit']) == p['lit']
+                                 and not any(c in p['lit'] for c in '\t\n'), 'attr literal')
+                        else:
+                            _req(p['form'] in ('brace', 'dollar'), 'attr part form')
+                            vexpr(p['e'], b2)
+                pa = n.get('pyattrs')
+                if pa:
+                    _req(pa['form'] in ('dict', 'list', 'var') and pa['items'], 'pyattrs')
+                    _req(len(set(x for x, _ in pa['items'])) == len(pa['items']), 'pyattrs names')
+                    for name, src in pa['items']:
+                        _req(name in ATTRS, 'pyattrs name')
+                        scalar_name(src, b2)
+                    if pa['form'] == 'var':
+                        _req(data[pa['var']]['k'] == 'pairs' and data[pa['var']]['items'] == pa['items'], 'pyattrs var')
+                if n.get('content') is not None:
+                    text_expr(n['content'], b2)
+                    _req(not n['kids'], 'content and kids')
+                else:
+                    nodes(n['kids'], b2)
+            elif t == 'for':
+                _req(_VAR.match(n['var']) is not None and n['var'] not in data, 'loop variable')
+                loop_expr(n['e'], bound)
+                nodes(n['kids'], [n['var']] + bound)
+            elif t == 'with':
+                _req(_VAR.match(n['var']) is not None and n['var'] not in data and n['e']['k'] == 'var', 'with')
+                scalar_name(n['e']['n'], bound)
+                nodes(n['kids'], [n['var']] + bound)
+            elif t == 'if':
+                _req(isinstance(n['cond'], bool), 'if')
+                nodes(n['kids'], bound)
+            elif t == 'choose':
+                _req(n['pick'] in (0, 1, 2) and len(n['kids']) == 2, 'choose')
+                nodes(n['kids'][0], bound)
+                nodes(n['kids'][1], bound)
+            elif t == 'def':
+                _req(top and _re.match(r'^f[0-9]+$', n['name']) is not None and _VAR.match(n['param']) is not None
+                     and n['param'] not in data, 'def')
+                nodes(n['kids'], [n['param']])
+                defs[n['name']] = n
+            else:
+                raise OutsideGrammar('node ' + str(t))
+
+    if case['mode'] == 'builder':
+        _req(case['expr']['k'] == 'tag', 'builder root')
+        text_expr(case['expr'], [])
+    else:
+        _req(isinstance(case.get('tmpl'), list), 'tmpl')
+        nodes(case['tmpl'], [], top=True)
+    # generator objects are consumed once: a generator value is referenced once, outside repeated bodies
+    # (the generator guarantees this; a shrunk case keeps it because shrinking only removes)
+    return True
+
+
+def _strings_of(v):
+    k = v['k']
+    if k == 's':
+        return [v['s']]
+    if k == 'o':
+        return [v['str']]
+    if k in ('isub', 'fsub'):
+        return [v['str']]
+    if k in ('l', 'g'):
+        out = []
+        for x in v['items']:
+            out.extend(_strings_of(x))
+        return out
+    return []
+
+
+def in_stated_domain(case):
+    """the hypotheses under which the check claims the property (module docstring of harness/props/c01.py):
+    outside them lie the recorded findings, which are judged on their listed inputs only"""
+    data = case['data']
+    method = case['method']
+    attr_vars, text_vars, blank_sensitive = set(), set(), set()
+
+    def walk(x, in_attr=False):
+        if isinstance(x, dict):
+            if 'parts' in x:
+                for p in x['parts']:
+                    if 'e' in p:
+                        names(p['e'], attr_vars)
+                return
+            if x.get('pyattrs'):
+                for _, src in x['pyattrs']['items']:
+                    attr_vars.add(src)
+                    blank_sensitive.add(src)
+            if 'pieces' in x:
+                holes = set(a[1][1] for p in x['pieces'] if p[0] == 'S' for a in p[2] if a[1][0] == 'hole')
+                args = x['args'] if x['k'] == 'fmt' else [n for _, n in x['keys']]
+                for i in holes:
+                    attr_vars.add(args[i])
+            if 'attrs' in x and 'name' in x and 'call' in x:      # builder node
+                for _, n in x['attrs']:
+                    attr_vars.add(n)
+            if x.get('t') in ('for', 'with') or 'for' in x:
+                e = x['for']['e'] if 'for' in x and x.get('t') == 'el' else x.get('e')
+                if e is not None:
+                    names(e, attr_vars)       # a bound value may reach attribute sites
+            if x.get('k') == 'call':
+                attr_vars.add(x['arg'])
+            for v in x.values():
+                walk(v)
+        elif isinstance(x, list):
+            for v in x:
+                walk(v)
+
+    def names(e, acc):
+        if e.get('k') == 'var':
+            acc.add(e['n'])
+        elif e.get('k') in ('list', 'gen'):
+            acc.update(e['items'])
+
+    walk(case.get('tmpl') if case['mode'] == 'template' else case.get('expr'))
+    for name, v in data.items():
+        if v['k'] in ('pairs', 'fmtstr', 'm'):
+            continue
+        for s in _strings_of(v):
+            if fit(s, method, 'attr' if name in attr_vars else 'text') != s:
+                return False
+            if name in blank_sensitive and not s.strip():
+                return False
+    return True
